@@ -595,6 +595,12 @@ def expected_fusion(ref, f: Fusion, small, st: Settings):
     r = fusion_segments(ref, f)
     if r is None:
         return set(), None            # geometry outside the enumerated space: output not judged
+    if ref.gene_of[f.donor_tx]['gene_id'] == ref.gene_of[f.acc_tx]['gene_id'] and \
+            any(v.tx in (f.donor_tx, f.acc_tx) for v in small):
+        # intragenic fusion with small variants: the backbone model identifies bases by (gene, position) and cannot
+        # tell the donor copy of a gene position from the accepter copy, so a record of one transcript would be
+        # applied on both sides.  Sequences are not judged; the id-level checks of C03 still apply.
+        return set(), None
     segs, junction = r
     bb = Backbone.from_segments(ref, segs)
     tm = TxModel(ref, f.donor_tx, st)
@@ -767,7 +773,7 @@ def witness(ref: refgen.Ref, case_small, case_as, case_fus, case_circ, st: Setti
         if v2 is None:
             return False, f'variant {bad} not in the input for accepter {f.acc_tx}'
         r = fusion_segments(ref, f)
-        if r is None:
+        if r is None or (ref.gene_of[f.donor_tx]['gene_id'] == ref.gene_of[f.acc_tx]['gene_id'] and (v1 or v2)):
             return True, 'geometry not modelled'
         segs, junction = r
         bb = Backbone.from_segments(ref, segs)
